@@ -41,7 +41,19 @@ def json_text(r):
         return kv_text(r)
     if c < 0.7:
         return gen.unicode_text(r, 0, 30) + r.choice(["", "#c", ";x", " ", "\n", "\t", "=", "\\", '"'])
-    return "".join(chr(r.choice([r.randrange(0x20, 0x7f), r.randrange(0xa0, 0x800), r.randrange(0x800, 0xd800), r.randrange(0x10000, 0x10ffff), r.randrange(0, 0x20)])) for _ in range(r.randint(0, 16)))
+    # any code point a Python string can hold, lone surrogates included (a JSON file may spell them as \\udXXX escapes);
+    # but never a high surrogate directly followed by a low one: JSON itself reads that as one astral character
+    return _no_pairs("".join(chr(r.choice([r.randrange(0x20, 0x7f), r.randrange(0xa0, 0x800), r.randrange(0x800, 0xd800), r.randrange(0xd800, 0xe000), r.randrange(0xe000, 0x10000),
+                                 r.randrange(0x10000, 0x10ffff), r.randrange(0, 0x20)])) for _ in range(r.randint(0, 16))))
+
+
+def _no_pairs(t):
+    out = []
+    for ch in t:
+        if out and 0xd800 <= ord(out[-1]) < 0xdc00 and 0xdc00 <= ord(ch) < 0xe000:
+            out.append("x")
+        out.append(ch)
+    return "".join(out)
 
 
 def gen_values(r, subset, fmt):
